@@ -883,6 +883,60 @@ def dicts_rebuilt_whole(ctx: Ctx, rep: Report, rid: str = "R16.19") -> None:
     rep.floor(2, "dict branches of the items builders") if n else None
 
 
+def member_dicts_stamped_like_members(ctx: Ctx, rep: Report, rid: str = "R16.29") -> None:
+    """An address container treats a member handed over as exported data like the member itself: the keys it overwrites
+    in the dict (`item["platform"] = ...`) are the settings it stamps on a ready-made member (`item.platform = ...`).  A
+    key overwritten in the dict branch only (`item["max_ncwb"] = self.max_ncwb`) replaces what the member exported by
+    the container's value: `copy()` - which rebuilds the members from their dicts - gives a member that differs from
+    the original, or refuses it (a member built with a larger wildcard-bit limit than its container)."""
+    from .common import per_item_unit
+
+    rep.rule(rid)
+    n = 0
+    for q in ("AddressBase._init_items", "AddrGroup.items.setter"):
+        f0 = ctx.prog.find_func(q)
+        if f0 is None:
+            continue
+        unit = per_item_unit(ctx, f0)
+        if unit is None:
+            rep.note(f"{rid} {q}: per-item conversion not recognised - not judged")
+            continue
+        f, var, paths, anchor, _is_helper = unit
+        obj_attrs: Set[str] = set()
+        dict_keys: Dict[str, ast.AST] = {}
+        seen_obj = seen_dict = False
+        for path in paths:
+            atoms = [(src(nd.ast), lab == "T") for nd, lab in path if nd.kind == "cond" and lab in ("T", "F")]
+            kind = None
+            for a, tr in atoms:
+                if tr and a.startswith("isinstance(") and var in a:
+                    kind = "dict" if "dict" in a else "str" if ", str)" in a else "object"
+            for nd, _lab in path:
+                if nd.kind != "stmt" or not isinstance(nd.ast, ast.Assign):
+                    continue
+                for t in nd.ast.targets:
+                    if kind == "object" and isinstance(t, ast.Attribute) and src(t.value) == var:
+                        obj_attrs.add(t.attr.lstrip("_"))
+                        seen_obj = True
+                    if kind == "dict" and isinstance(t, ast.Subscript) and src(t.value) == var and isinstance(t.slice, ast.Constant) and isinstance(t.slice.value, str):
+                        dict_keys[t.slice.value] = nd.ast
+                        seen_dict = True
+            seen_obj |= kind == "object"
+            seen_dict |= kind == "dict"
+        if not (seen_obj and seen_dict):
+            rep.note(f"{rid} {q}: no isinstance-selected object and dict branches found - not judged")
+            continue
+        n += 1
+        rep.instance()
+        extra = sorted(k for k in dict_keys if k.lstrip("_") not in obj_attrs)
+        if extra:
+            rep.violation(q, snippet(dict_keys[extra[0]], 60), f"the dict branch overwrites {extra} in the member's exported data, which the container does not stamp on a ready-made member ({sorted(obj_attrs)}): a member rebuilt from its own data (copy(), platform change of the entry) no longer carries the value it exported", where(f, dict_keys[extra[0]]), inp="m = Address('10.0.0.0 0.255.255.128', max_ncwb=30); a = Address('object-group G', items=[m]); Ace(..).copy() -> NetmaskValueError")
+        else:
+            rep.ok(q, f"dict members get {sorted(dict_keys)}, ready-made members {sorted(obj_attrs)}", where=where(f, anchor))
+    if n:
+        rep.floor(1, "address containers with an object and a dict branch")
+
+
 def exporter_reads_own_settings(ctx: Ctx, rep: Report, rid: str = "R16.20") -> None:
     """A constructor option that the object keeps in an attribute of the same name is exported from THAT attribute: the
     value `data()` gives for key k mentions `self.k` / `self._k` (an option re-derived from somewhere else - the limit of
@@ -1087,6 +1141,7 @@ def run(ctx: Ctx, rep: Report, tier: str) -> None:
     block_identity_key_is_unique(ctx, rep)
     copies_can_be_equal(ctx, rep)
     dicts_rebuilt_whole(ctx, rep)
+    member_dicts_stamped_like_members(ctx, rep)
     blocks_keep_identity(ctx, rep)
     exporter_reads_own_settings(ctx, rep)
     # R16.21 premise: the exported line is read back by the grammar it was written for - every address spelling whole, the
